@@ -42,10 +42,18 @@ Fixpoint bsearch (fuel : nat) (x : K) (mn mx : Z) : option Z :=
 
 Inductive lookup := Outside | Found (c : Z) | NoFuel.
 
+(* while (centers > order && x == knots[centers]) centers--;     (x == y on doubles is x <= y && y <= x: false for NaN,
+   true for -0 and +0) — the fuel handed in by [search_dim] is the maximal number of iterations *)
+Fixpoint skip_flat (fuel : nat) (x : K) (order c : Z) : Z :=
+  match fuel with
+  | O => c
+  | S f => if (order <? c) && (leb x (kn c) && leb (kn c) x) then skip_flat f x order (c - 1) else c
+  end.
+
 Definition search_dim (fuel : nat) (order naxes : Z) (x : K) : lookup :=
   if negb (gtb x (kn 0) && leb x (kn (nknots - 1))) then Outside
   else if ltb x (kn order) then Found order
-  else if geb x (kn naxes) then Found (naxes - 1)
+  else if geb x (kn naxes) then Found (skip_flat (Z.to_nat (naxes - 1 - order)) x order (naxes - 1))
   else match bsearch fuel x order (nknots - 2) with
        | None => NoFuel
        | Some c => Found (if c =? naxes then c - 1 else c)
